@@ -33,6 +33,8 @@ def check(c: Check):
     clause_d(c)
     clause_e(c)
     clause_f(c)
+    from .common import sweep_records
+    sweep_records(c, 'C16-rec', ['exactly_lib.test_suite'], floor=8)
 
 
 # ---------------------------------------------------------------- a
